@@ -2,11 +2,13 @@ package blocktransactions
 
 import (
 	"errors"
+	"fmt"
 	"iter"
 
 	"github.com/NethermindEth/juno/core"
 	"github.com/NethermindEth/juno/db"
 	"github.com/NethermindEth/juno/db/typed/prefix"
+	"github.com/NethermindEth/juno/pruner"
 )
 
 func getFirstBlockToMigrate(
@@ -68,4 +70,45 @@ func clearOldBuckets(database db.KeyValueStore) error {
 	}
 
 	return core.ReceiptsByBlockNumberAndIndexBucket.Prefix().DeletePrefix(database)
+}
+
+// backfillEmptyBlocks writes the (empty) combined entry for every retained block that still has
+// none. Called once the old buckets are empty, so such a block must be a block without
+// transactions. Blocks below the oldest retained block (pruned databases) are left alone.
+func backfillEmptyBlocks(database db.KeyValueStore, chainHeight uint64) error {
+	firstBlock, err := pruner.OldestRetainedBlock(database)
+	if err != nil {
+		if !errors.Is(err, db.ErrKeyNotFound) {
+			return err
+		}
+		firstBlock = 0
+	}
+
+	batch := database.NewBatch()
+	for blockNumber := firstBlock; blockNumber <= chainHeight; blockNumber++ {
+		has, err := core.BlockTransactionsBucket.Has(database, blockNumber)
+		if err != nil {
+			return err
+		}
+		if has {
+			continue
+		}
+
+		txCount, err := core.GetBlockTransactionCountByNumber(database, blockNumber)
+		if err != nil {
+			return err
+		}
+		if txCount > 0 {
+			return fmt.Errorf("block %d: missing transactions and receipts", blockNumber)
+		}
+
+		empty, err := core.NewBlockTransactions(nil, nil)
+		if err != nil {
+			return err
+		}
+		if err := core.BlockTransactionsBucket.Put(batch, blockNumber, &empty); err != nil {
+			return err
+		}
+	}
+	return batch.Write()
 }
